@@ -2,6 +2,7 @@
    (site ID IDX DELIMITED N)          -> ID cap=C ok=0/1 extent=E outcome=Complete|Rejected|Cut|Overrun kind=K
    (depth ID "((v+v))")               -> ID Ok D | ID Err      (nesting and token limits of the source)
    (limit ID WHICH N)                 -> ID within | ID over
+   (fieldref ID KINDS N)              -> ID Found I | ID NoSuchField | ID BadIndex | ID Crash
    (query ID D K)                     -> ID within | ID over   (K plain terms inside D nested parentheses)
    (div ID (pool (SYMHEX PREC)...) EXPR) -> ID <value as in drv_C03> | ID E:<err>
    (period ID Q N START DATE)         -> ID Ok S | ID Err:<class>
@@ -101,6 +102,12 @@ let handle line =
     [id ^ (if within_limit lim (zatom n) then " within" else " over")]
   | L [A "query"; A id; d; k] ->
     [id ^ (if query_accept src_query_depth_limit src_query_term_limit (zatom d) (zatom k) then " within" else " over")]
+  | L [A "fieldref"; A id; A kinds; n] ->
+    (* kinds: a string over E (EXPR element) and S (STRING element), "-" for an empty template *)
+    let ks = if kinds = "-" then [] else List.init (String.length kinds) (fun i -> if kinds.[i] = 'E' then KExpr else KString) in
+    (match field_ref src_format_field_ref_guard (number_from (z_of_int 1) ks) (zatom n) with
+     | Found (_, i) -> [id ^ " Found " ^ string_of_z i]
+     | NoSuchField -> [id ^ " NoSuchField"] | BadIndex -> [id ^ " BadIndex"] | Crash -> [id ^ " Crash"])
   | L [A "period"; A id; A q; n; start; date] ->
     (match period_start src_period_zero_guard (quantum_of q) (zatom n) (zatom start) (zatom date) with
      | Ok s -> [id ^ " Ok " ^ string_of_z s]
